@@ -4,7 +4,8 @@ what the property asks for.  Input: schemas as blocks of lines
 
     schema NAME
     type NAME simple PY | boolean | defined REF | enum I1 I2 … | select M1 M2 … | aggregate KIND LO HI|? [KIND LO HI|? …] BASE
-    entity NAME S1,S2|- A1:k,A2:k|-          (k = e explicit, o optional, d derived, i inverse)
+    entity NAME S1,S2|- A1:k[:T],A2:k[:T]|-  (k = e explicit, o optional, d derived, i inverse; T = INTEGER … | BOOLEAN |
+                                             @name (defined type or entity) | # (inline aggregate))
     end
 
 one reply line per block (items separated by ` | `, classes and types in input order); anything else: `bad-op`. -/
@@ -15,11 +16,26 @@ def joinOr (l : List String) (dflt : String) : String := if l.isEmpty then dflt 
 def parseKindC : String → Option AKind
   | "e" => some .explicit | "o" => some .optional | "d" => some .derived | "i" => some .inverse | _ => none
 
+def parseATy (s : String) : ATy :=
+  if s = "BOOLEAN" then .boolean
+  else if s = "#" then .aggregate
+  else if s.startsWith "@" then .named (s.drop 1).toString
+  else .simple s
+
 def parseAttrs (owner : String) (s : String) : Option (List Attr) :=
   if s = "-" then some [] else
   (s.splitOn ",").mapM (fun w => match w.splitOn ":" with
     | [n, k] => (parseKindC k).map (fun k => { owner, name := n, kind := k })
+    | [n, k, t] => (parseKindC k).map (fun k => { owner, name := n, kind := k, ty := parseATy t })
     | _ => none)
+
+def showAccess : Access → String
+  | .mandatory => "m" | .optional => "o" | .derived => "d" | .inverse => "i"
+
+def showProps (types : List TypeDef) (e : Entity) : String :=
+  joinOr (e.attrs.map (fun a =>
+    let p := propOf a
+    s!"{p.name}:{showAccess p.access}:" ++ (let acc := String.ofList (acceptsProbe types a); if acc.isEmpty then "-" else acc))) "-"
 
 /-- `KIND LO HI|? KIND LO HI … BASE` -/
 def parseAgg : List String → Option AggT
@@ -71,6 +87,7 @@ def render (useSpec : Bool) (s : Schema) : String :=
     let m := moduleOf s
     " | ".intercalate ([s!"pkg={m.package}"] ++ m.classes.map showClass
       ++ (s.entities.map (fun e => s!"attrs {pyName e.name}={joinOr (ctorAttrNames s.entities e) "-"}"))
+      ++ (s.entities.map (fun e => s!"props {pyName e.name}={showProps s.types e}"))
       ++ m.types.map (fun t => s!"type {t.name}={showBody true t.body}"))
 
 partial def loop (useSpec : Bool) (h : IO.FS.Stream) (out : IO.FS.Stream) (cur : Option Schema) (bad : Bool) : IO Unit := do
